@@ -5,6 +5,12 @@ use std::time::Instant;
 
 pub const VERIF: &str = "/verif";
 
+/// Output root (evidence/, replays/, .work/): /verif unless UV_OUT is set (used by scratch mutant runs so
+/// that they never overwrite the real evidence).  Known findings are always read from /verif.
+pub fn out_root() -> String {
+    std::env::var("UV_OUT").unwrap_or_else(|_| VERIF.to_string())
+}
+
 #[derive(Clone, Copy, PartialEq, Eq, Debug)]
 pub enum Tier {
     Quick,
@@ -100,19 +106,25 @@ fn str_or_list(v: &Value) -> Vec<String> {
 }
 
 pub fn load_known(prop: &str) -> Vec<KnownEntry> {
-    let path = format!("{}/known_findings.json", VERIF);
+    let mut out = vec![];
+    let mut files = vec![format!("{}/known_findings.json", VERIF)];
+    if let Ok(rd) = std::fs::read_dir(format!("{}/known_findings.d", VERIF)) {
+        let mut extra: Vec<String> = rd.filter_map(|e| e.ok()).map(|e| e.path().to_string_lossy().to_string()).filter(|p| p.ends_with(".json")).collect();
+        extra.sort();
+        files.extend(extra);
+    }
+    for path in files {
     let txt = match std::fs::read_to_string(&path) {
         Ok(t) => t,
-        Err(_) => return vec![],
+        Err(_) => continue,
     };
     let v: Value = match serde_json::from_str(&txt) {
         Ok(v) => v,
         Err(e) => {
-            eprintln!("MACHINERY: known_findings.json does not parse: {}", e);
+            eprintln!("MACHINERY: {} does not parse: {}", path, e);
             std::process::exit(2);
         }
     };
-    let mut out = vec![];
     if let Some(arr) = v["findings"].as_array() {
         for e in arr {
             if e["property"].as_str() != Some(prop) {
@@ -129,6 +141,7 @@ pub fn load_known(prop: &str) -> Vec<KnownEntry> {
             });
         }
     }
+    }
     out
 }
 
@@ -142,6 +155,12 @@ pub fn covering<'a>(known: &'a [KnownEntry], v: &Violation) -> Option<&'a KnownE
             && k.symptom.contains(&v.symptom)
             && (k.tags.iter().any(|t| t == "*") || k.tags.iter().any(|t| v.tags.contains(t)))
     })
+}
+
+/// Root of the library under test (its corpus is under tests/test_files): /repo unless UV_REPO is set
+/// (scratch mutant runs).
+pub fn repo_root() -> String {
+    std::env::var("UV_REPO").unwrap_or_else(|_| "/repo".to_string())
 }
 
 pub fn fnv(data: &[u8]) -> u64 {
@@ -186,7 +205,7 @@ pub fn finish(ctx: &Ctx, mut out: Outcome) -> i32 {
     // replays: one per distinct (clause, symptom, tags) class, at most 25 files
     let mut seen_class: HashSet<(String, String, Vec<String>)> = HashSet::new();
     let mut replay_paths = vec![];
-    let dir = format!("{}/replays/{}", VERIF, ctx.prop);
+    let dir = format!("{}/replays/{}", out_root(), ctx.prop);
     for v in &uncovered {
         let key = (v.clause.clone(), v.symptom.clone(), v.tags.clone());
         if seen_class.contains(&key) {
@@ -226,8 +245,8 @@ pub fn finish(ctx: &Ctx, mut out: Outcome) -> i32 {
         "violations": n_uncovered,
         "violations_covered_by_known_findings": out.violations.len() - n_uncovered,
     });
-    let _ = std::fs::create_dir_all(format!("{}/evidence", VERIF));
-    let path = format!("{}/evidence/{}.json", VERIF, ctx.prop);
+    let _ = std::fs::create_dir_all(format!("{}/evidence", out_root()));
+    let path = format!("{}/evidence/{}.json", out_root(), ctx.prop);
     if let Err(e) = std::fs::write(&path, serde_json::to_string_pretty(&ev).unwrap()) {
         eprintln!("MACHINERY: cannot write evidence {}: {}", path, e);
         return 2;
@@ -272,7 +291,7 @@ pub fn panic_class(msg: &str) -> String {
 }
 
 pub fn work_dir(prop: &str) -> String {
-    let d = format!("{}/.work/{}", VERIF, prop);
+    let d = format!("{}/.work/{}", out_root(), prop);
     let _ = std::fs::create_dir_all(&d);
     d
 }
